@@ -670,7 +670,16 @@ wait:
 	b.Eval("scenario|"+key+"|completed", true)
 	b.State(key)
 
-	// ---- idempotence: run everybody again on the finished chain
+	// ---- idempotence: run everybody again on the finished chain — some chain time later (an hour in half of
+	// the scenarios, thirty days in the others): whatever the first run registered must still be there and in
+	// force (seeded change C13-6: names registered for ten minutes)
+	shift := time.Hour
+	if b.Index%2 == 1 {
+		shift = 30 * 24 * time.Hour
+	}
+	nd.ShiftTime(shift)
+	waitBlocks(2)
+	b.Hit("second-run-after-chain-time-passed")
 	nnsBefore := dumpNNS(nd)
 	var wg2 sync.WaitGroup
 	errs := make([]error, sc.N)
@@ -1021,13 +1030,13 @@ func runC13(b *runner.Batch) {
 func init() {
 	runner.Register(&runner.Check{
 		ID: "C13", Level: "exploration",
-		Rule: "Scenarios on a real in-process neo-go node (blockchain, network server with mempool and notary request pool, Notary service, RPC server with in-process clients, harness block producer as logical clock): every committee member runs the public deploy.Deploy with the embedded contracts; a scenario fixes committee size (quick 1,2,3,4,4,3,4; thorough 1..7 x 8-9), per-member start offsets, per-call delays injected at the RPC boundary, optionally an interruption of one member at a PRNG-chosen block followed by a restart, optionally a state-triggered interruption (the run is cancelled when the chain shows a stage boundary: NNS deployed, Notary role designated, NeoFSAlphabet role designated, proxy / netmap / container registered), a restart delay of 0-5 blocks, optionally a second interruption (of the same or another member), optionally a minority of non-leading members absent until the Notary role appears, optionally a 'late majority' (one member short of a majority publishes signatures, the completing member joins 135 blocks after the last early signature appeared in the NNS; the monitor confirms that the shared transaction data was generated again in between). Judged: return values, progress within 1500 blocks and no global silence (no submission attempt by anybody) longer than 150 blocks while unfinished, roles, NNS id and records, executables by checksum, ContractManagement Deploy event counts, submissions the node refuses as invalid, a second run over the finished chain (no Deploy/Update/Designation event, NNS storage unchanged), and Go race detector reports with a frame in neofs-contract/deploy (the child binary is built with -race). Pure helpers through verif-tagged exports: fund division exhaustive for 0..2000 x 1..41 plus uint64 boundaries, nonce/validity window for heights 0..10000 and the last 300 below 2^32, shared-transaction-data codec round trips. distinct = scenario (size, label, outcome) and helper class.",
+		Rule: "Scenarios on a real in-process neo-go node (blockchain, network server with mempool and notary request pool, Notary service, RPC server with in-process clients, harness block producer as logical clock): every committee member runs the public deploy.Deploy with the embedded contracts; a scenario fixes committee size (quick 1,2,3,4,4,3,4; thorough 1..7 x 8-9), per-member start offsets, per-call delays injected at the RPC boundary, optionally an interruption of one member at a PRNG-chosen block followed by a restart, optionally a state-triggered interruption (the run is cancelled when the chain shows a stage boundary: NNS deployed, Notary role designated, NeoFSAlphabet role designated, proxy / netmap / container registered), a restart delay of 0-5 blocks, optionally a second interruption (of the same or another member), optionally a minority of non-leading members absent until the Notary role appears, optionally a 'late majority' (one member short of a majority publishes signatures, the completing member joins 135 blocks after the last early signature appeared in the NNS; the monitor confirms that the shared transaction data was generated again in between). Judged: return values, progress within 1500 blocks and no global silence (no submission attempt by anybody) longer than 150 blocks while unfinished, roles, NNS id and records, executables by checksum, ContractManagement Deploy event counts, submissions the node refuses as invalid, a second run over the finished chain one hour / thirty days of chain time later (must finish; no Deploy/Update/Designation event, NNS storage unchanged), and Go race detector reports with a frame in neofs-contract/deploy (the child binary is built with -race). Pure helpers through verif-tagged exports: fund division exhaustive for 0..2000 x 1..41 plus uint64 boundaries, nonce/validity window for heights 0..10000 and the last 300 below 2^32, shared-transaction-data codec round trips. distinct = scenario (size, label, outcome) and helper class.",
 		Assumptions: []string{"neo-go v0.107.0 node components are the trusted base", "goroutine interleavings are sampled, not enumerated; a replay re-runs the scenario parameters and carries the recorded RPC log of the failing run as witness",
 			"funding transfers (GAS top-ups, notary deposits) of a second run are logged, not judged"},
 		Batches: func(t string) int { return 1 + len(scenarios(t, 1)) },
 		NoTree:  true, Chunk: 1, Race: true, MaxParallel: 6,
 		ChildTimeout: func(string) time.Duration { return 20 * time.Minute },
-		Floors:       []string{"helper:divideFundsEvenly", "helper:transactionModifier", "helper:sharedTransactionData", "completed-n1", "completed-n2", "completed-n3", "completed-n4", "restart-survived", "leader-restart-survived", "restart-at-stage-boundary", "restart-at:notary-designated", "absent-minority-bootstrap", "majority-completed-after-shared-data-expiry", "idempotence-rerun", "designation-with>=2-remote-signatures"},
+		Floors:       []string{"helper:divideFundsEvenly", "helper:transactionModifier", "helper:sharedTransactionData", "completed-n1", "completed-n2", "completed-n3", "completed-n4", "restart-survived", "leader-restart-survived", "restart-at-stage-boundary", "restart-at:notary-designated", "absent-minority-bootstrap", "majority-completed-after-shared-data-expiry", "second-run-after-chain-time-passed", "idempotence-rerun", "designation-with>=2-remote-signatures"},
 		Run:          runC13,
 		Exhaustive: func(string) (bool, string) {
 			return true, "fund division for all amounts 0..2000 x 1..41 receivers; nonce/validity window for all heights 0..10000 (deployment scenarios are sampled)"
